@@ -1351,7 +1351,7 @@ func init() {
 		Rule: "G-prog function bodies (loops, labelled break/continue, do/catch/finally, defer, closures, ??, throws) get suspension points at random statement positions (also in loops, do/catch/finally bodies; never in closures) and are rendered as plain function (point = call printing the value), generator (point = yield), async function (no suspension) and async function awaiting a pool task at every point, plus async chains of depth 2-3; consumers: for, manual next past the end, take(n), to_list, top-level await, await in async, Promise.wait + repeated await + is_resolved, busy polling of is_resolved, go threads awaiting shared promises and calling the async function themselves; pools of 1..8 workers, queue 4..50; oracle: every section prints what the reference interpreter's trace of the plain function implies; deadlocks confirmed by goroutine states; Go race detector on; failing subjects are delta-minimised; distinct = (section kind, enclosing constructs of a passed suspension point, pool size)",
 		NumCases: func(tier string) int {
 			if tier == "thorough" {
-				return 12000
+				return 1500
 			}
 			return 300
 		},
